@@ -120,6 +120,16 @@ theorem single_write_per_record :
     Gen.fileUsesSaveReport = ["file.Close", "file.Write"] ∧
     Gen.fileUsesSaveEquipment = ["file.Close", "file.Write"] ∧
     Gen.fileUsesSaveStats = ["file.Close", "file.Write"] := by decide
+/-- The server's own key file (public key followed by private key, 96 bytes) is written with exactly one
+`Write` call, outside any loop, and then closed: a process killed while the file is being created leaves it
+empty or whole, never a public key without its private key. -/
+theorem single_write_key_file : Gen.fileUsesServerKeys = ["file.Write", "file.Close"] := by decide
+/-- The calibration loader (production build) assigns each default to its own field when the file is absent,
+and the first parsed line to the multiplier and the second to the divider otherwise; nothing else writes a
+field of the client there. -/
+theorem calibration_assignments : Gen.ctSettingsAssigns =
+    ["c.energyMultiplier=EnergyMultiplierDefault", "c.energyDivider=EnergyDividerDefault",
+     "c.energyMultiplier=mult", "c.energyDivider=div"] := by decide
 /-- The client's history store reads and writes at explicit offsets only: the reporting loop and every
 running sync round share one file handle, and positional I/O is what keeps them from moving each other's
 file position. -/
@@ -148,6 +158,11 @@ theorem capacity_buffer : Gen.ProdServer.MaxCapacityBuffer = 135 ∧ Gen.TestSer
 theorem migration_period_prod : Gen.ProdServer.ReportMigrationFrequency = 12 * (300 * 1000000000) := by decide
 /-- Production reporting period (270 s) plus the largest random extension (4 s) is below one slot. -/
 theorem send_period_prod : Gen.ProdClient.sendReportTime + 4000 * 1000000 < 300 * 1000000000 := by decide
+/-- Calibration defaults of the production build (used when no calibration file exists): multiplier -2000,
+divider 1000 - in particular the default divider is not zero and the two differ, which the test build
+(1000/1000) cannot show. -/
+theorem calibration_defaults_prod :
+    Gen.ProdClient.EnergyMultiplierDefault = -2000 ∧ Gen.ProdClient.EnergyDividerDefault = 1000 := by decide
 theorem archive_limit : Gen.ProdServer.apiArchiveLimit = 3 ∧ Gen.ProdServer.apiArchiveRate = 3 * 1000000000 := by decide
 theorem history_slots : Gen.ProdClient.maxHistorySlots = 2^30 - 1 ∧ Gen.TestClient.maxHistorySlots = 2^30 - 1 := by decide
 
